@@ -22,7 +22,13 @@ def prop_case(ch):
     else:
         skip = [ch.choice(PASSES)]
     j = ch.choice(["-j1", "-j4"])
-    return {"program": text, "facts": facts, "base": {"args": [j]},
+    excluded = False
+    if ".type Adt" in text and "HoistConditionsTransformer" in skip:
+        # known finding F26: without condition hoisting the branch-tag test of an ADT pattern stays below the unpack of the
+        # branch payload; excluded here (counted) and re-tested by the dedicated probe
+        skip = [x for x in skip if x != "HoistConditionsTransformer"] or ["CollapseFiltersTransformer"]
+        excluded = True
+    return {"program": text, "facts": facts, "base": {"args": [j]}, "excluded_known": excluded,
             "variant": {"args": [j], "env": {"SOUFFLE_VERIF_SKIP_RAM": ",".join(skip)}}}
 
 
@@ -37,6 +43,8 @@ def judge(case, st=None):
     if msgs:
         raise Violation("outputs differ between full RAM pipeline and %r:\n%s" % (case["variant"]["env"], "\n".join(msgs)), {"case": case})
     if st is not None:
+        if case.get("excluded_known"):
+            st.known["F26:HoistConditions skipped with ADT patterns"] += 1
         changed = set()
         for ln in a.rr.out.split("\n"):
             if ln.endswith("[changed]") and " time: " in ln:
@@ -53,7 +61,18 @@ def judge(case, st=None):
             st.classes["pass_did_nothing" if not fired else "empty_outputs"] += 1
 
 
+F26_PROGRAM = '.type Adt0 = Br0x0 {f0:float} | Br0x1 {f0:number, f1:number} | Br0x2 {f0:number}\n.decl e0(a0:number, a1:Adt0, a2:number)\ne0(0, $Br0x0(0.25), 0).\ne0(0, $Br0x0(0.0), 0).\n.decl e1(a0:number, a1:number)\ne1(0, 0).\n.decl e2(a0:number, a1:number)\ne2(0, 0).\n.decl e3(a0:number)\ne3(0).\n.decl r0(a0:Adt0)\n.output r0\nr0($Br0x0(0.0)) :- e0(v1, $Br0x1(v2, v3), v4).\n'
+
+
+def probes(st, tier, seed):
+    for f in common.findings_for(PID):
+        if f["key"] == "F26":
+            res = runner.run_program(F26_PROGRAM, {}, args=["-j1"], env={"SOUFFLE_VERIF_SKIP_RAM": "HoistConditionsTransformer"})
+            if res.rr.rc not in (0, None):
+                st.known_lines.append(f["what"])
+
+
 from vlib.pcheck import PCheck
-CHECK = PCheck(PID, RULE, prop_case, judge, quick=2000, thorough=30000,
+CHECK = PCheck(PID, RULE, prop_case, judge, quick=2000, thorough=30000, probes=probes,
                assumptions=["the hook only prevents a named non-meta RAM transformer from running", "interpreter back end"], floor=50)
 main, replay_file = CHECK.main, CHECK.replay_file
